@@ -49,11 +49,13 @@ def _mk(engine_mod):
 def lookup(dotted):
     from .symex import Builtin, meta_value
     if dotted in TABLE:
+        if isinstance(TABLE[dotted], V):
+            return TABLE[dotted]
         return meta_value(Builtin(dotted, _wrap(dotted, TABLE[dotted])))
     if dotted in MODULE_NAMES:
         from .symex import ModuleRef
         return meta_value(ModuleRef(dotted))
-    if dotted in LIB_CLASSES or dotted.split('.')[-1] in LIB_CLASS_ALIASES:
+    if dotted in LIB_CLASSES or (dotted.split('.')[-1] in LIB_CLASS_ALIASES and dotted.startswith('torch')):
         from .symex import ClassRef
         return meta_value(ClassRef(LIB_CLASS_ALIASES.get(dotted.split('.')[-1], dotted), lib=True))
     return None
